@@ -1317,7 +1317,7 @@ def run(ck):
     import time
     tm = {}
     t0 = time.time()
-    proved = common.standard_proof_steps(ck, translators=['smiles_tables', 'elements', 'stereo'])
+    proved = common.standard_proof_steps(ck, translators=['smiles_tables', 'smiles_more', 'elements', 'stereo'])
     tm['proof_steps'] = round(time.time() - t0, 1)
     t0 = time.time()
     mols = pool(ck)
